@@ -544,9 +544,22 @@ class SetGen:
         cond = [x for x in cond if x in keep]
         if not mand:
             return
+        # one MODULE clause per home module of the groups: the local ones under an unnamed clause (or one naming this
+        # module), the imported ones under `MODULE <home>`; clause order is random, so named clauses may precede the unnamed
+        homes = []
+        for (pm, pn), t in mand + cond:
+            if pm not in homes:
+                homes.append(pm)
+        rng.shuffle(homes)
+        clauses = []
+        for h in homes:
+            cm = [{'name': k[1], 'module': k[0]} for k, t in mand if k[0] == h]
+            cc = [{'name': k[1], 'module': k[0]} for k, t in cond if k[0] == h]
+            label = None if (h == mname and rng.random() < 0.8) else h
+            clauses.append({'module': label, 'mandatory': cm, 'conditional': cc})
         add({'kind': 'moduleCompliance', 'name': self.names.fresh(), 'status': 'current', 'description': self.text(),
              'reference': None, 'mandatory': [{'name': k[1], 'module': k[0]} for k, t in mand],
-             'conditional': [{'name': k[1], 'module': k[0]} for k, t in cond], 'oidparts': parts}, oid,
+             'conditional': [{'name': k[1], 'module': k[0]} for k, t in cond], 'clauses': clauses, 'oidparts': parts}, oid,
             mandatory=[k[1] for k, t in mand], conditional=[k[1] for k, t in cond])
 
 
@@ -702,10 +715,15 @@ def print_module(m, rng, wild=False, positions=None, blocks=False, spell_seed=0)
             t(d['name'], 'NOTIFICATION-GROUP', 'NOTIFICATIONS', '{', ', '.join(o['name'] for o in d['objects']), '}',
               'STATUS', d['status'], 'DESCRIPTION', q(d['description']), '::=', oid_text(d['oidparts']))
         elif k == 'moduleCompliance':
-            t(d['name'], 'MODULE-COMPLIANCE', 'STATUS', d['status'], 'DESCRIPTION', q(d['description']), 'MODULE')
-            t('MANDATORY-GROUPS', '{', ', '.join(g['name'] for g in d['mandatory']), '}')
-            for g in d['conditional']:
-                t('GROUP', g['name'], 'DESCRIPTION', q('conditional'))
+            t(d['name'], 'MODULE-COMPLIANCE', 'STATUS', d['status'], 'DESCRIPTION', q(d['description']))
+            for cl in d['clauses']:
+                t('MODULE')
+                if cl['module']:
+                    t(cl['module'])
+                if cl['mandatory']:
+                    t('MANDATORY-GROUPS', '{', ', '.join(g['name'] for g in cl['mandatory']), '}')
+                for g in cl['conditional']:
+                    t('GROUP', g['name'], 'DESCRIPTION', q('conditional'))
             t('::=', oid_text(d['oidparts']))
         else:
             raise ValueError(k)
